@@ -116,6 +116,19 @@ CHECKS["C01"] = {
     "note": "Trusted: modern_robotics 1.1.1 formulas; rewrite set N1..N16; IEEE arithmetic near the 0/pi branch points is not analysed.",
 }
 
+CHECKS["C17"] = {
+    "engine": "sa",
+    "technique": "abstract interpretation with symbolic array extents (affine index ranges vs contracted shapes) + call-site extent unification",
+    "design_ref": "DESIGN.md section 4 C17",
+    "text": ("Decides the index-safety half of the property for all inputs that satisfy the documented shape contracts: in "
+             "each of the 47 @jit kernels every integer subscript and constant slice stays inside the extent of the value "
+             "it indexes for every value of the loop counters (affine ranges, exact unrolling of constant-trip loops), and "
+             "at every kernel call site of the Python layers the extents made explicit by argument slices agree with the "
+             "contract's equalities (this is what finds an i-column view passed with i+1 joint values). 'Compiled equals "
+             "interpreted' is not decided (Numba code generation is the trusted base)."),
+    "note": "Trusted: shape contracts in sa/engine/mrspec.py (docstrings); Numba code generation; callers not analysed pass arrays that satisfy the contracts.",
+}
+
 _PENDING = "rule module not yet built in this round (see DESIGN.md section 4 for the planned static rules)"
 for _i in range(1, 21):
     _p = "C%02d" % _i
